@@ -3,8 +3,9 @@
 //
 //	C07 q <timeout_ms> <dgrams>       responder sends the datagrams in order, then stays silent
 //	C07 flood <timeout_ms> <dgram>    responder repeats one datagram until the query returns
+//	C07 dp <timeout_ms> <dgrams>      the real details prober against the same responder (dp.go)
 //
-// output: resp <ver> <fields> <players> <objectives> | err:incomplete | err:malformed | timeout |
+// output (q, flood): resp <ver> <fields> <players> <objectives> | err:incomplete | err:malformed | timeout |
 // err:other:<text> | panic:<text>, followed by `late` if Query outlived timeout+slack.
 package c07
 
@@ -33,17 +34,34 @@ func exec(op string, args []string) []string {
 	if err != nil {
 		return []string{"bad-op"}
 	}
+	timeout := time.Duration(ms) * time.Millisecond
+	var run func() []string
 	switch op {
 	case "q":
-		return u.RunQuery(ds, time.Duration(ms)*time.Millisecond, false)
+		run = func() []string { return u.RunQuery(ds, timeout, false) }
 	case "flood":
 		if len(ds) != 1 {
 			return []string{"bad-op"}
 		}
-		return u.RunQuery(ds, time.Duration(ms)*time.Millisecond, true)
+		run = func() []string { return u.RunQuery(ds, timeout, true) }
+	case "dp":
+		run = func() []string { return runProbe(ds, timeout) }
+	default:
+		return []string{"bad-op"}
 	}
-	return []string{"bad-op"}
+	started := time.Now()
+	out := run()
+	if time.Since(started) > timeout+stallMargin {
+		// the call took far longer than its timeout: either the machine stalled (all shards of a run show it at the
+		// same moment; datagrams are then lost or read after the deadline) or the code really overran its deadline.
+		// Once more: a real overrun reproduces and is reported (`late`), a stall does not.
+		out = run()
+	}
+	return out
 }
+
+// stallMargin: a call that outlives its timeout by this much is repeated once (see exec).
+const stallMargin = 500 * time.Millisecond
 
 const tmo = "150"
 
@@ -103,7 +121,15 @@ func gen(rng *rand.Rand, tier core.Tier, emit core.Emit) {
 	if tier == core.Thorough {
 		k = 12
 	}
-	q := func(ds [][]byte) { emit("q", tmo, u.JoinDgrams(ds)) }
+	// every 10th stream of op q is replayed through the details prober (op dp) at the end
+	var dpStreams [][][]byte
+	nq := 0
+	q := func(ds [][]byte) {
+		emit("q", tmo, u.JoinDgrams(ds))
+		if nq++; nq%10 == 0 {
+			dpStreams = append(dpStreams, clone(ds))
+		}
+	}
 
 	// (1) arbitrary bytes, 1..4 datagrams
 	for i := 0; i < 250*k; i++ {
@@ -302,6 +328,9 @@ func gen(rng *rand.Rand, tier core.Tier, emit core.Emit) {
 	if rng.Intn(2) == 0 {
 		emit("flood", tmo, core.Hex(junk(rng, 20)))
 	}
+
+	// (8) the details prober on mostly-valid statuses with hostile values, and on a sample of the streams above
+	genDp(rng, tier, emit, dpStreams)
 }
 
 func permute(ds [][]byte, f func([][]byte)) {
